@@ -720,3 +720,9 @@ CONTRACTS["model:Parameter.source_popsize"] = dict(
     ensures=[("C03.denominator_is_the_current_total_of_the_source_compartments", "result == %s" % _src_total),
              ("C03.the_cache_stays_valid", "self._source_popsize_cache_time == ti and self._source_popsize_cache_val == %s" % _src_total)],
     frame_props=["C03"], defined_props=["C03"])
+
+
+# the same contracts with the number of INFLOW links fixed (2) and the accumulation loop unrolled: a body the loop summary cannot treat
+# (an accumulator that is overwritten instead of added to) is then executed link by link and decided instead of left undecided
+for _q in ("model:JunctionCompartment.balance#group", "model:ResidualJunctionCompartment.balance#group"):
+    CONTRACTS[_q + "_two_inflows"] = dict(CONTRACTS[_q], unroll_max=3, requires=CONTRACTS[_q]["requires"] + ["len(self.inlinks) == 2"])
